@@ -348,8 +348,8 @@ theorem sim_convertToExternal (dest : String) (v1 v2 : Bool) (hv : VP ecb v1 v2)
   simp only [er_fs]
   exact sim_bind (sim_mapM' (fun p => sim_materializeOne dest _ p) _) (fun ids => sim_placeAndWrite dest v1 v2 hv _ ids)
 
-theorem sim_unload (tnames : List String) (dest : String) (v1 v2 : Bool) (hv : VP ecb v1 v2) :
-    Sim ek ecb (unload tnames dest v1) (unload tnames dest v2) := by
+theorem sim_unload {thr : Nat} (tnames : List String) (dest : String) (v1 v2 : Bool) (hv : VP ecb v1 v2) :
+    Sim ek ecb (unload thr tnames dest v1) (unload thr tnames dest v2) := by
   unfold unload
   refine sim_get_bind (fun s0 => ?_)
   simp only [er_heap, er_cv]
@@ -357,8 +357,8 @@ theorem sim_unload (tnames : List String) (dest : String) (v1 v2 : Bool) (hv : V
   refine sim_bind (sim_convertToExternal dest v1 v2 hv _) (fun extIds => ?_)
   exact sim_modify (fun _ => rfl)
 
-theorem sim_irSave (sig : List (String × Bool)) (tnames : List String) (dir name rel : String) (v1 v2 : Bool)
-    (hv : VP ecb v1 v2) : Sim ek ecb (irSave sig tnames dir name rel v1) (irSave sig tnames dir name rel v2) := by
+theorem sim_irSave {thr : Nat} (sig : List (String × Bool)) (tnames : List String) (dir name rel : String) (v1 v2 : Bool)
+    (hv : VP ecb v1 v2) : Sim ek ecb (irSave thr sig tnames dir name rel v1) (irSave thr sig tnames dir name rel v2) := by
   unfold irSave
   refine sim_get_bind (fun s0 => ?_)
   simp only [er_cv]
